@@ -60,6 +60,10 @@ package validator
 //@   ensures [C04:one-document] !jsonOneDocument(jsonldText) ==> result1 != nil
 //@   ensures-assumed [C18:lib-function] result0 == libNormalized(jsonldText) && result1 == libNormalizedErr(jsonldText) && stdout == old(stdout)
 
+//@ func eval(compiledRego rego.PreparedEvalQuery, normalizedInput any) (result rego.ResultSet, err error)
+//@   ensures [C08:no-compile] opaRejected == old(opaRejected)
+//@   ensures [C11:no-events] chanClosed == old(chanClosed) && evOpen == old(evOpen) && evNext == old(evNext) && evCur == old(evCur) && evCount == old(evCount) && evLastTime == old(evLastTime) && evClock == old(evClock)
+
 //@ func executeValidation(eventChan *chan e.Event, err error, compiledRego rego.PreparedEvalQuery, normalizedInput any) (*rego.ResultSet, error)
 //@   ensures [C08:no-compile] opaRejected == old(opaRejected)
 //@   requires [C11:normalized] eventChan != nil ==> (chanClosed == 0 && !evOpen && evNext == 5)
